@@ -827,5 +827,16 @@ func itemID(x any) string {
 	if m, ok := x.(proto.Message); ok {
 		return fmt.Sprintf("%T@%p", m, m)
 	}
+	if c, ok := x.(system.Collection); ok {
+		// a nested collection: its slice header and the identity of every item
+		parts := []string{fmt.Sprintf("Collection[len=%d cap=%d]", len(c), cap(c))}
+		if len(c) > 0 {
+			parts[0] += fmt.Sprintf("@%p", &c[0])
+		}
+		for _, y := range c {
+			parts = append(parts, itemID(y))
+		}
+		return strings.Join(parts, ";")
+	}
 	return renderItem(x)
 }
